@@ -1,4 +1,5 @@
 import HmcVerif.Props.C01
+import HmcVerif.Real.BoxedKernelN
 open HmcVerif.C01
 #print axioms schedule_palindrome
 #print axioms schedule_time_sums
@@ -22,3 +23,5 @@ open HmcVerif.C01
 #print axioms boxed_drift_injective_1d
 #print axioms boxed_drift_lands_in_box_1d
 #print axioms HmcVerif.piecewise_measure
+#print axioms propose_volume_preserving_boxed_diag
+#print axioms HmcVerif.trajBox_mp
